@@ -213,5 +213,33 @@ func init() {
 			return act && inact && countKind(h, "introspect")+countKind(h, "introspect_ep") > 0
 		},
 		rule: common + "the probes contain active and inactive answers and the history has explicit introspections (hints, required scopes, tampered tokens)"})
+	regHist(&histProp{id: "C16", profile: mk("C16", func(p *Profile) {
+		p.WAuthorize, p.WRedeem, p.WRefresh, p.WRevoke, p.WPassword, p.WPush, p.WAuthorizePAR = 3, 3, 8, 3, 1, 0, 0
+		p.WDeviceAuth, p.WDecide, p.WDevicePoll, p.WAdvance, p.Bad, p.ShortLives = 16, 16, 34, 10, 22, 45
+	}), module: "Cases.Monitors", checkFn: "check_C16", quickN: 300, thoroN: 5000,
+		nontriv: func(h *HHistory, obs []HObs) bool {
+			polls := 0
+			for _, op := range h.Ops {
+				if op.Kind == "device_poll" && op.Tok.Ref >= 0 {
+					polls++
+				}
+			}
+			return polls >= 2 && countKind(h, "decide") > 0
+		},
+		rule: common + "at least two polls of issued device codes and one user decision (orders of poll / decision / expiry / replay, right and wrong client)"})
+	regHist(&histProp{id: "C17", profile: mk("C17", func(p *Profile) {
+		p.WAuthorize, p.WRedeem, p.WRefresh, p.WRevoke, p.WPassword, p.WDeviceAuth, p.WDecide, p.WDevicePoll = 6, 12, 3, 2, 1, 0, 0, 0
+		p.WPush, p.WAuthorizePAR, p.WAdvance, p.Bad, p.ShortLives, p.ParEnforce, p.PKCE = 22, 34, 12, 22, 50, 30, 30
+	}), module: "Cases.Monitors", checkFn: "check_C17", quickN: 300, thoroN: 5000,
+		nontriv: func(h *HHistory, obs []HObs) bool {
+			uses := 0
+			for _, op := range h.Ops {
+				if op.Kind == "authorize_par" && op.Tok.Ref >= 0 {
+					uses++
+				}
+			}
+			return uses >= 2
+		},
+		rule: common + "at least two authorization requests presenting issued request_uris (right / wrong client, twice, after clock advances, conflicting extra parameters), enforcement on in ~30% of the histories"})
 	_ = fmt.Sprint
 }
